@@ -941,7 +941,7 @@ func init() {
 		reg.Rules = append(reg.Rules, func(c *Ctx, r *Result) { copyCompleteRuleScoped(c, r, idC, scope) })
 	}
 	share("C11", "C11.10", "C11.11", "the metadata encoders of package core and the superblock/object header writers", pre("core."))
-	share("C12", "", "C12.10", "the global heap writer", pre("hdf5.globalHeap", "hdf5.encodeVLen", "hdf5.encodeString", "hdf5.DatasetWriter.writeVLen"))
+	share("C12", "C12.10", "C12.11", "the global heap writer", pre("hdf5.globalHeap", "hdf5.encodeVLen", "hdf5.encodeString", "hdf5.DatasetWriter.writeVLen"))
 	share("C13", "C13.10", "C13.11", "the chunk writer and the chunk index", pre("hdf5.DatasetWriter.writeChunk", "hdf5.expandEdgeChunk", "hdf5.DatasetWriter.Resize", "structures.ChunkBTree", "structures.serializeChunkBTreeNode", "writer.Chunk", "hdf5.ChunkCoordinator", "writer.ChunkCoordinator"))
 	share("C14", "C14.10", "C14.11", "the writable name index (B-tree v2)", pre("structures.WritableBTreeV2", "structures.insertRecordSorted", "structures.jenkinsHash"))
 	share("C15", "", "C15.9", "the writable fractal heap", pre("structures.WritableFractalHeap", "structures.WritableIndirectBlock", "structures.WritableDirectBlock"))
@@ -1043,4 +1043,57 @@ func init() {
 			r.Shortfall(c, "C11.12", "C11.12: no encoder/decoder pair with round-up expressions on both sides")
 		}
 	})
+}
+
+// ---- a dataset is written through one layout (C12.12 / C01.14) ----
+//
+// dataAddress means two things: for a contiguous dataset it is where the element bytes go, for a chunked one it is the address
+// of the chunk index. A function that writes element bytes therefore does it through writeChunkedData or by WriteAtAddress at
+// dataAddress, never both on one path: the second write lands on the chunk index that the first has just written.
+func layoutExclusiveRule(c *Ctx, r *Result, rule string) {
+	n := 0
+	for _, fn := range c.LibFuncs() {
+		if shortPkg(fnPkgPath(fn)) != "hdf5" {
+			continue
+		}
+		var chunked, contiguous []ssa.Instruction
+		for _, site := range callsIn(fn) {
+			name := c.calleeName(site)
+			switch {
+			case name == "hdf5.DatasetWriter.writeChunkedData":
+				chunked = append(chunked, site.(ssa.Instruction))
+			case strings.HasSuffix(name, ".WriteAtAddress"):
+				args := site.Common().Args
+				if valueReadsField(args[len(args)-1], "hdf5.DatasetWriter.dataAddress", 0) {
+					contiguous = append(contiguous, site.(ssa.Instruction))
+				}
+			}
+		}
+		if len(chunked) == 0 || len(contiguous) == 0 {
+			continue
+		}
+		n++
+		bad := ""
+		for _, a := range chunked {
+			for _, b := range contiguous {
+				if canReach(a, b) {
+					bad = c.InstrPos(a) + " -> " + c.InstrPos(b)
+				} else if canReach(b, a) {
+					bad = c.InstrPos(b) + " -> " + c.InstrPos(a)
+				}
+			}
+		}
+		r.Check(bad == "", rule, c.Name(fn)+"#one-layout-per-write", c.InstrPos(chunked[0]), "the chunked write and the write at dataAddress exclude each other on every path"+map[bool]string{true: "", false: " (path " + bad + ": for a chunked dataset dataAddress is the chunk index, which the second write overwrites)"}[bad == ""])
+	}
+	if n < 2 {
+		r.Shortfall(c, rule, fmt.Sprintf("%s: only %d functions with both a chunked and a contiguous write", rule, n))
+	}
+}
+
+func init() {
+	txt := "a dataset is written through one layout: in every function of the root package that can write element bytes both ways, the call of writeChunkedData and the WriteAtAddress at dataAddress exclude each other on every path (for a chunked dataset dataAddress is the address of the chunk index: a fall-through after the chunked write puts the heap references of a variable-length dataset on top of the index node)"
+	registry["C12"].Meta.Rules["C12.12"] = txt
+	registry["C12"].Rules = append(registry["C12"].Rules, func(c *Ctx, r *Result) { layoutExclusiveRule(c, r, "C12.12") })
+	registry["C01"].Meta.Rules["C01.14"] = txt + " (shared with C12.12)"
+	registry["C01"].Rules = append(registry["C01"].Rules, func(c *Ctx, r *Result) { layoutExclusiveRule(c, r, "C01.14") })
 }
